@@ -55,6 +55,9 @@ K("bs.read_bits", ["C01", "C02", "C04", "C11", "C14"], "jxl-bitstream", BS, BSM,
   "ensures Ok(v) => v == u(n) of the view, position += n, view dropped n bits; Err => unexpected_eof, nothing consumed, n > available")
 K("bs.consume_bits", ["C01", "C11", "C14"], "jxl-bitstream", BS, BSM, "consume_bits_contract", "complete",
   ["Bitstream::consume_bits"], "Ok iff n <= buffered bits; Err is unexpected-eof and changes nothing")
+K("bs.consume_bits_const", ["C01", "C11", "C14"], "jxl-bitstream", BS, BSM, "consume_bits_const_contract", "complete",
+  ["Bitstream::consume_bits_const", "Bitstream::peek_bits_prefilled_const"],
+  "N in {1, 16, 32}: Ok iff N <= buffered bits, position += N, view dropped N bits; Err is unexpected-eof and changes nothing (position included)")
 K("bs.skip_bits", ["C01", "C02", "C11", "C14"], "jxl-bitstream", BS, BSM, "skip_bits_contract",
   "bounded:remaining bytes <= 20 (all n)", ["Bitstream::skip_bits"],
   "Ok iff n <= available; position += n; view dropped n bits; Err is unexpected-eof")
